@@ -88,7 +88,7 @@ SEEDS2 = {
  "C18-4": ("C18-2", "the dialler's DEADLINE expires during protocol init while a waiter with a live context waits on the coalesced dial", "C18 quick", "missed as built (explicit cancels only); caught after the author added contexts that end by deadline in virtual time"),
  "C19-3": ("C19-1", "a client that sends nothing at all", "C19 quick", "caught as built"),
  "C19-4": ("C19-2", "a subscribe whose document has no determinable operation type", "C19 quick", "missed as built; caught after the author drove the operation type through the real ExecutorV2 and demanded that accepted operations are executed and answered"),
- "C20-3": ("C20-1", "an interface / union field nested in a resolver or @requires result selected without any fragment", "MISSED (author resumed)", "missed as built"),
+ "C20-3": ("C20-1", "an interface / union field nested in a resolver or @requires result selected without any fragment", "C20 quick", "missed as built (depth bound 3, no fragment-free abstract selections); caught after the author added a fragment-free family exempt from the depth bound and the 'members' reformulation"),
  "C20-4": ("C20-2", "a resolver nested in a resolver over an _entities fetch mixing two entity types", "C20 quick", "caught as built"),
 }
 
